@@ -1,17 +1,17 @@
 SPECIFICATION Spec
 CONSTANTS
-  Mode = "weight"
+  Mode = "position"
   N = 0
   M = 2
-  P = 2
+  P = 3
   Vals = {0, 1}
   MaxLen = 2
-  MaskLen = 2
+  MaskLen = 1
   Tols <- TolsW
   Gens <- Gens5
   Targets <- NoTargets
   MTols <- Tol1h
-  MGens = {1}
+  MGens = {0, 1}
   MTargets <- NoTargets
   PrsCat <- NoSets
   IdxCat <- NoSets
